@@ -354,6 +354,11 @@ func ext۰reflect۰Value۰MapKeys(fr *frame, args []value) value {
 
 func ext۰reflect۰Value۰NumField(fr *frame, args []value) value {
 	// Signature: func (reflect.Value) int
+	if _, ok := rV2V(args[0]).(*native); ok {
+		// an opaque host object (compiled regexp): all its fields are
+		// unexported, which is all reflectutil.IsZero looks at
+		return 0
+	}
 	return len(rV2V(args[0]).(structure))
 }
 
